@@ -243,7 +243,7 @@ func runC08(c *Ctx) {
 				ct := Term(ifi.Cond)
 				takenTrue := e.from.Succs[0] == e.to
 				switch {
-				case strings.Contains(ct, "rangeindex") && !takenTrue:
+				case strings.Contains(ct, "idx<") && !takenTrue:
 				case strings.HasPrefix(ct, "opts.Except.Contains(") && takenTrue:
 				default:
 					okExit = false
